@@ -189,8 +189,11 @@ enum Traffic {
   Data(i64),
   Gap(i64, i64),
   Heartbeat(i64, i64, i32),
+  /// a DATA that cannot become a change (no payload, no key hash): the reader steps over it
+  Unusable(i64),
 }
 
+/// scripts drawn directly (and enumerated); 14 and 15 are reached by a flag drawn last
 const SCRIPTS: usize = 14;
 
 fn script_is_best_effort(script: usize) -> bool {
@@ -198,7 +201,7 @@ fn script_is_best_effort(script: usize) -> bool {
 }
 
 fn script_has_two_readers(script: usize) -> bool {
-  script >= 10
+  (10..=13).contains(&script)
 }
 
 fn gen_traffic(script: usize) -> (Vec<Traffic>, BTreeSet<i64>) {
@@ -219,7 +222,10 @@ fn gen_traffic(script: usize) -> (Vec<Traffic>, BTreeSet<i64>) {
     10 => vec![Traffic::Data(1)],
     11 => vec![Traffic::Data(2), Traffic::Gap(1, 2)],
     12 => vec![Traffic::Data(2), Traffic::Data(1)],
-    _ => vec![Traffic::Data(2), Traffic::Heartbeat(2, 2, 1)],
+    13 => vec![Traffic::Data(2), Traffic::Heartbeat(2, 2, 1)],
+    // 14-15: the datagram that releases the waiting samples is a DATA that cannot become a change
+    14 => vec![Traffic::Data(2), Traffic::Unusable(1)],
+    _ => vec![Traffic::Data(2), Traffic::Data(3), Traffic::Unusable(1)],
   };
   if script_is_best_effort(script) {
     // a best-effort reader hands over whatever arrives with an increasing sequence number
@@ -250,6 +256,9 @@ fn gen_traffic(script: usize) -> (Vec<Traffic>, BTreeSet<i64>) {
         }
       }
       Traffic::Heartbeat(f, _, _) => below = below.max(*f),
+      Traffic::Unusable(s) => {
+        unavailable.insert(*s);
+      }
     }
   }
   let mut f = below;
@@ -273,6 +282,20 @@ fn datagram(t: &Traffic, wguid: GUID, rid: [u8; 4]) -> Vec<u8> {
           sn: *sn,
           inline_qos: None,
           payload: Some(payload(*sn)),
+          key_flag: false,
+        },
+      );
+      wire::push_submessage(&mut dg, wire::DATA, f, &b, None);
+    }
+    Traffic::Unusable(sn) => {
+      let (f, b) = wire::data_body(
+        true,
+        &wire::DataSpec {
+          reader_id: rid,
+          writer_id: wid,
+          sn: *sn,
+          inline_qos: Some(vec![(0x0056, vec![0, 0, 0, 0, 0, 0, 0, 1])]), // PID_COHERENT_SET only
+          payload: None,
           key_flag: false,
         },
       );
@@ -315,6 +338,12 @@ fn reader_scenario(scenario: u32, c: &mut Choices, o: &mut Outcome) {
   let sched_bytes: Vec<u8> = {
     let n = c.usize_in(0, 60);
     c.bytes(n)
+  };
+  // (drawn last) the scripts added later
+  let script = match c.pick(5) {
+    3 => 14,
+    4 => 15,
+    _ => script,
   };
   reader_case(scenario, script, &sched_bytes, o);
 }
